@@ -32,6 +32,7 @@ import (
 	"github.com/sassoftware/relic/v8/config"
 	"github.com/sassoftware/relic/v8/server"
 
+	"verif/amqpfake"
 	"verif/faketoken"
 	"verif/mc"
 	"verif/relicx"
@@ -494,18 +495,248 @@ func standalonePhase() {
 	}
 }
 
+// ---- (d) the AMQP sink against a scripted broker ----
+
+// brokerPhase: every history of <=2 requests x what a loopback AMQP 0-9-1
+// broker (verif/amqpfake) does with each publisher connection - ack, nack,
+// connection or channel torn down after the publish but before the
+// confirmation, refused at the handshake or at exchange.declare, confirmed and
+// then dropped. A signature may leave the server only if the broker took
+// responsibility for that request's record.
+func brokerPhase() {
+	broker := amqpfake.Start()
+	defer broker.Close()
+	var hists [][]reqSpec
+	for _, a := range reqAlphabet {
+		a.Name = "b1.ps1"
+		hists = append(hists, []reqSpec{a})
+		for _, b := range reqAlphabet[:2] {
+			b.Name = "b2.ps1"
+			hists = append(hists, []reqSpec{a, b})
+		}
+	}
+	for _, withFile := range []bool{false, true} {
+		for _, h := range hists {
+			st := mc.Explore(mc.Options{MaxDeviations: -1}, func(c *mc.Ctx) {
+				vos.Reset()
+				vos.Mkdir("/vfs/audit")
+				vos.Fault = nil
+				faketoken.Reset()
+				cfg := relicx.ServerConfig(faketoken.Type)
+				if withFile {
+					cfg.AuditFile = auditPath
+				}
+				cfg.Amqp = &config.AmqpConfig{URL: broker.URL()}
+				relicx.Use(cfg)
+				srv, err := server.New(cfg)
+				if err != nil {
+					panic(err)
+				}
+				defer srv.Close()
+				handler := srv.Handler()
+				broker.Reset()
+				var seq []amqpfake.Behaviour
+				broker.Next = func() amqpfake.Behaviour {
+					b := amqpfake.All[c.Choose(len(amqpfake.All), fmt.Sprintf("broker-%d", len(seq)+1))]
+					seq = append(seq, b)
+					return b
+				}
+				type brokerResult struct {
+					req    reqSpec
+					status int
+					body   []byte
+					conns  []amqpfake.Behaviour
+				}
+				var results []brokerResult
+				for _, r := range h {
+					before := len(seq)
+					rec := httptest.NewRecorder()
+					handler.ServeHTTP(rec, r.build())
+					results = append(results, brokerResult{r, rec.Code, rec.Body.Bytes(), append([]amqpfake.Behaviour{}, seq[before:]...)})
+				}
+				run.Eval(1)
+				var parts []string
+				for _, r := range results {
+					parts = append(parts, fmt.Sprintf("%s->%d broker%v", short([]reqSpec{r.req}), r.status, r.conns))
+				}
+				desc := fmt.Sprintf("sinks={amqp broker, file:%v} %s", withFile, strings.Join(parts, "; "))
+				replay := map[string]any{"file_sink": withFile, "history": h, "choices": c.Trace, "labels": c.Labels}
+				run.Distinct(desc)
+				broker.Next = func() amqpfake.Behaviour { return amqpfake.Ack }
+				// what the broker confirmed, by request file name
+				confirmed := map[string]int{}
+				broker.Counts()
+				for _, body := range brokerAcked(broker) {
+					var m map[string]any
+					if json.Unmarshal(body, &m) == nil {
+						confirmed[attr(m, "client.filename")]++
+					}
+				}
+				for _, r := range results {
+					ok := r.status >= 200 && r.status < 300
+					sigBytes := bytes.Contains(r.body, []byte("SIG # Begin signature block")) || (len(r.body) > 0 && r.body[0] == 0x30)
+					switch {
+					case r.req.Bad && ok:
+						run.Violation("broker:bad-request-signed", desc, replay)
+					case ok && confirmed[r.req.Name] == 0:
+						run.Violation("broker:signature-returned-without-confirmed-record", fmt.Sprintf("%s: request %s got %d and a signature although the broker never confirmed its audit record", desc, r.req.Name, r.status), replay)
+					case !ok && sigBytes:
+						run.Violation("broker:signature-returned-with-error-status", desc, replay)
+					case !ok && !r.req.Bad && len(r.conns) == 1 && r.conns[0].Confirmed():
+						// the broker confirmed and the request still failed: allowed only if another sink failed
+						if !withFile {
+							run.Violation("broker:request-fails-although-record-confirmed", fmt.Sprintf("%s: request %s got %d", desc, r.req.Name, r.status), replay)
+						}
+					}
+					if confirmed[r.req.Name] > 1 {
+						run.Violation("broker:duplicate-audit-record", desc, replay)
+					}
+					cls := "refused"
+					if ok {
+						cls = "signed"
+					}
+					for _, b := range r.conns {
+						run.Outcome("broker:" + string(b) + ":" + cls)
+					}
+				}
+				if withFile {
+					// the file sink must agree with what was returned
+					recs, torn := lines(vos.Snapshot(auditPath))
+					if len(torn) > 0 {
+						run.Violation("broker:audit-file-torn-line", desc, replay)
+					}
+					inFile := map[string]int{}
+					for _, m := range recs {
+						inFile[attr(m, "client.filename")]++
+					}
+					for _, r := range results {
+						if r.status >= 200 && r.status < 300 && inFile[r.req.Name] != 1 {
+							run.Violation("broker:success-without-file-record", fmt.Sprintf("%s: %d records in the audit file for %s", desc, inFile[r.req.Name], r.req.Name), replay)
+						}
+					}
+				}
+			})
+			run.AddTransitions(st.ChoicePoints)
+			run.AddStates(st.Executions)
+		}
+	}
+}
+
+func brokerAcked(b *amqpfake.Broker) [][]byte { return b.AckedBodies() }
+
+// ---- (e) the audit file disappears between requests ----
+
+// rotationPhase: histories of 2-3 sign requests on one server with the audit
+// file sink; between two requests the environment removes the audit file,
+// removes the whole audit directory, or renames the file away (log rotation).
+// A signature may leave only if its record is in the file at the CONFIGURED
+// path when the response starts; with the directory gone the request is refused.
+func rotationPhase() {
+	events := []string{"nothing", "file-deleted", "directory-removed", "file-renamed-away"}
+	var walk func(h []string)
+	run1 := func(evs []string) {
+		vos.Reset()
+		vos.Mkdir("/vfs/audit")
+		faketoken.Reset()
+		cfg := relicx.ServerConfig(faketoken.Type)
+		cfg.AuditFile = auditPath
+		relicx.Use(cfg)
+		srv, err := server.New(cfg)
+		if err != nil {
+			panic(err)
+		}
+		defer srv.Close()
+		handler := srv.Handler()
+		run.Eval(1)
+		desc := fmt.Sprintf("audit file sink, between requests: %v", evs)
+		run.Distinct("rotation|" + desc)
+		dirGone := false
+		for i := 0; i <= len(evs); i++ {
+			if i > 0 {
+				switch evs[i-1] {
+				case "file-deleted":
+					vos.Unlink(auditPath)
+				case "directory-removed":
+					vos.Rmdir("/vfs/audit")
+					dirGone = true
+				case "file-renamed-away":
+					vos.RenameFile(auditPath, auditPath+".1")
+				}
+			}
+			r := reqAlphabet[i%2]
+			r.Name = fmt.Sprintf("r%d.ps1", i+1)
+			rec := &recorder{ResponseRecorder: httptest.NewRecorder()}
+			handler.ServeHTTP(rec, r.build())
+			ok := rec.Code >= 200 && rec.Code < 300
+			replay := map[string]any{"events": evs, "request": i + 1}
+			if !ok {
+				if !dirGone {
+					run.Violation("rotation:request-refused-although-sink-is-writable", fmt.Sprintf("%s: request %d got %d: %.120s", desc, i+1, rec.Code, rec.Body.Bytes()), replay)
+				} else {
+					run.Outcome("rotation:refused-without-directory")
+				}
+				continue
+			}
+			if dirGone {
+				run.Violation("rotation:signature-returned-although-audit-directory-is-gone", fmt.Sprintf("%s: request %d got %d", desc, i+1, rec.Code), replay)
+				continue
+			}
+			srecs, _ := lines(rec.snap)
+			found := 0
+			for _, m := range srecs {
+				if attr(m, "client.filename") == r.Name {
+					found++
+				}
+			}
+			if found != 1 {
+				where := "nowhere the configuration names"
+				if rot, _ := lines(vos.Snapshot(auditPath + ".1")); len(rot) > 0 {
+					for _, m := range rot {
+						if attr(m, "client.filename") == r.Name {
+							where = "in the file that was renamed away"
+						}
+					}
+				}
+				if i > 0 && evs[i-1] == "file-renamed-away" && where == "in the file that was renamed away" {
+					// the record exists, in the rotated file: tallied, not judged
+					run.Outcome("rotation:record-followed-the-renamed-file")
+					continue
+				}
+				run.Violation("rotation:signature-returned-without-record-at-configured-path", fmt.Sprintf("%s: request %d (%s) got %d and a signature; the audit file at the configured path holds %d record(s) for it when the response starts (record is %s)", desc, i+1, r.Name, rec.Code, found, where), replay)
+				continue
+			}
+			run.Outcome("rotation:recorded-at-configured-path")
+		}
+	}
+	walk = func(h []string) {
+		if len(h) > 0 {
+			run1(h)
+		}
+		if len(h) == 2 {
+			return
+		}
+		for _, e := range events {
+			walk(append(append([]string{}, h...), e))
+		}
+	}
+	walk(nil)
+}
+
 func main() {
 	relicx.Quiet()
 	run = vlib.NewRun("C06", "model_checking")
-	faultPhase()
-	schedPhase()
-	standalonePhase()
+	// phases whose enumeration does not depend on choice points inside relic come first
+	run.Phase("rotation", rotationPhase)
+	run.Phase("broker", brokerPhase)
+	run.Phase("faults", faultPhase)
+	run.Phase("schedules", schedPhase)
+	run.Phase("standalone", standalonePhase)
 	var keys []string
 	_ = keys
 	sort.Strings(keys)
-	run.Rule("(a) every history of <=3 requests from {sign rsaA/sha256, sign p256A/sha384, refused request} x sink configuration {file, file in missing directory, file+refusing broker, none} x every combination of <=2 (thorough 4) faults over the audit-file operations (open: EACCES/EISDIR/ENOSPC; write: ENOSPC/EIO/half-written; close: EIO); (b) every interleaving with <=3 preemptions for 2 threads and <=2 for 3 threads (thorough: 4 and 3) of concurrent /sign handlers over hooked mutex, token and audit-file operations; (c) the standalone pipeline x all open/write faults. states = executions, transitions = choice points. distinct_nontrivial = executions with at least one fault / preemption")
+	run.Rule("(a) every history of <=3 requests from {sign rsaA/sha256, sign p256A/sha384, refused request} x sink configuration {file, file in missing directory, file+refusing broker, none} x every combination of <=2 (thorough 4) faults over the audit-file operations (open: EACCES/EISDIR/ENOSPC; write: ENOSPC/EIO/half-written; close: EIO); (b) every interleaving with <=3 preemptions for 2 threads and <=2 for 3 threads (thorough: 4 and 3) of concurrent /sign handlers over hooked mutex, token and audit-file operations; (c) the standalone pipeline x all open/write faults; (d) every history of <=2 requests x {broker only, broker + file} x every choice of what a loopback AMQP broker does with each publisher connection (ack, nack, TCP / channel / connection torn down between publish and confirm, dropped at the handshake, exchange.declare refused, confirmed then dropped); (e) every sequence of <=2 environment events {nothing, audit file deleted, audit directory removed, file renamed away} between 2-3 sign requests on one server. states = executions, transitions = choice points. distinct_nontrivial = executions with at least one fault / preemption")
 	run.Assume("the audit file is an in-memory file with kernel O_APPEND semantics (atomic positioned append) and per-descriptor offsets otherwise")
 	run.Assume("a half-written record caused by an injected short write ends the history (the file is then no longer line-structured through no fault of relic)")
-	run.Assume("AMQP: only 'not configured' and 'connection refused' are in the alphabet")
+	run.Assume("AMQP: the broker is verif/amqpfake (protocol frames written from the 0-9-1 specification, checked against relic's own publisher in amqpfake_test.go); a broker that accepts the publish and then stays silent forever is not in the alphabet (the publisher has no timeout: that history never ends)")
 	run.Finish()
 }
